@@ -11,7 +11,7 @@ RULE = ("state A = program: every expression form of the Python 3.12 grammar ins
         "match, with/for/async/await/yield, raise/assert/except, global/nonlocal/del), deliberately ill-typed, under three configurations (test defaults, all codes on, all off); "
         "state B = ordered pair of generated Values through can_assign, can_overlap (all modes), unite_values, substitute_typevars, is_assignable, str, hash, simplify; "
         "oracle: no exception escapes, no internal_error, every diagnostic has a registered code, a line inside the file, a column inside that line and a non-empty message")
-ASSUMPTIONS = ["candidate programs are filtered with compile(); they live inside function bodies, so importing the module succeeds", "termination is decided with a per-batch time limit (60 s for 150 functions)"]
+ASSUMPTIONS = ["candidate programs are filtered with compile(); they live inside function bodies, so importing the module succeeds", "termination is decided with a per-batch time limit (300 s for 150 functions, 60 s for a single isolated function)"]
 MAXTASKS = 6
 
 ATOMS_A = ["1", '"a"', "x", "undefined_name", "[1]", "None"]
@@ -151,7 +151,7 @@ def _check_batch(res, srcs, cfg, base, tier):
         ln += s.count("\n")
     lines = code.split("\n")
     old = signal.signal(signal.SIGALRM, _alarm)
-    signal.alarm(90 if len(srcs) > 1 else 20)
+    signal.alarm(300 if len(srcs) > 1 else 60)
     try:
         with warnings.catch_warnings():
             warnings.simplefilter("ignore")
@@ -217,7 +217,7 @@ def _run_programs(res, tier, lo, hi, only_cfg=None):
                 res.violation({"kind": "exception-escapes", "exc": exc, "where": where}, {"mode": "prog", "src": s, "cfg": cfg, "order": lo + k},
                               "check() raised %s (in %s) under [%s] on\n%s" % (exc, where, cfg, s))
             elif st == "timeout":
-                res.violation({"kind": "does-not-terminate"}, {"mode": "prog", "src": s, "cfg": cfg, "order": lo + k}, "check() did not finish within 20 s under [%s] on\n%s" % (cfg, s))
+                res.violation({"kind": "does-not-terminate"}, {"mode": "prog", "src": s, "cfg": cfg, "order": lo + k}, "check() did not finish within 60 s under [%s] on\n%s" % (cfg, s))
     if lo % (BATCH * 20) == 0 and srcs:
         res.sample({"program": srcs[len(srcs) // 2]})
 
